@@ -93,17 +93,36 @@ def o_damage(case):
     old_level = lg.level
     lg.setLevel(logging.DEBUG)
     try:
-        rdr = RTCMReader(io.BytesIO(data), quitonerror=qoe, errorhandler=handler)
+        sock = None
+        nstall = 0
+        if case.get("sock"):
+            # the same stream over a socket, one item per segment, with timeouts between some items (never inside one):
+            # the application polls again; nothing is lost and nothing is reported twice
+            from pv.doubles import ScriptedSocket
+
+            evs = []
+            for k, i in enumerate(items):
+                evs.append(bytes.fromhex(i["b"]))
+                if case["sock"][k % len(case["sock"])]:
+                    evs.append("timeout")
+                    nstall += 1
+            sock = ScriptedSocket(evs + ["close"])
+            sock.budget = 6 * len(data) + 8 * len(evs) + 256
+            rdr = RTCMReader(sock, quitonerror=qoe, errorhandler=handler, bufsize=case.get("bufsize", 4096))
+        else:
+            rdr = RTCMReader(io.BytesIO(data), quitonerror=qoe, errorhandler=handler)
         events = []
-        it = iter(rdr)
-        state = {"done": False, "fail": None}
+        state = {"done": False, "fail": None, "it": iter(rdr)}
 
         def consume(limit):
             """up to `limit` next() calls on the SAME iterator; returns True when iteration has ended"""
             for _ in range(limit):
                 try:
-                    raw, parsed = next(it)
+                    raw, parsed = next(state["it"])
                 except StopIteration:
+                    if sock is not None and not sock.closed_by_peer:
+                        state["it"] = iter(rdr)  # a gap in delivery: poll again
+                        continue
                     state["done"] = True
                     return
                 except RTCMParseError:
@@ -120,7 +139,7 @@ def o_damage(case):
                     state["fail"] = Fail("parsed-mismatch", "parsed object does not belong to the raw frame")
                     return
 
-        total = len(items) * 2 + 4
+        total = len(items) * 2 + 4 + 2 * nstall
         if case.get("handoff"):
             # the reader is handed from one thread to another part-way (never used concurrently): "the same reader
             # keeps working" must not depend on which thread continues
@@ -146,6 +165,8 @@ def o_damage(case):
     finally:
         lg.removeHandler(counter)
         lg.setLevel(old_level)
+        if sock is not None:
+            sock.close()
     returned = [r for k, r in events if k == "ok"]
     if returned != good:
         detail = f"returned {len(returned)} frames, expected the {len(good)} undamaged of {len(items)}"
@@ -188,6 +209,8 @@ def o_damage(case):
     if any(i["k"] == "damaged" and i.get("syncy_payload") for i in items):
         cls.append("damaged-frame-with-sync-like-payload")
     cls.append("handler-" + case.get("handler", "function"))
+    if case.get("sock"):
+        cls.append("socket-with-gaps-between-items" if any(case["sock"]) else "socket")
     if case.get("handoff"):
         cls.append("reader-handed-to-another-thread")
     return Res(nontrivial=sandwiched, classes=sorted(set(cls)))
@@ -211,7 +234,7 @@ def s_damage(draw, tier):
                 reps.append(streams.item("frame", base, repeat=True))
         k = draw(st.integers(0, len(items)))
         items = items[:k] + reps + items[k:]
-    return {"items": items, "mode": draw(st.sampled_from(["ignore", "log-handler", "log-nohandler", "raise"])), "handler": draw(st.sampled_from(["function", "collector", "bound-method", "returns-true", "returns-count"])), "handoff": draw(st.integers(0, 3)) == 0}
+    return {"items": items, "mode": draw(st.sampled_from(["ignore", "log-handler", "log-nohandler", "raise"])), "handler": draw(st.sampled_from(["function", "collector", "bound-method", "returns-true", "returns-count"])), "handoff": draw(st.integers(0, 3)) == 0, **({"sock": draw(st.lists(st.sampled_from([0, 1, 1]), min_size=1, max_size=6)), "bufsize": draw(st.sampled_from([1, 16, 4096]))} if draw(st.integers(0, 3)) == 0 else {})}
 
 
 def e_tiny(tier, shard, nshards):
@@ -272,7 +295,7 @@ SUBS = [
         enum=e_all,
         examples=(250, 5000),
         rule="see property rule",
-        need={"reader-handed-to-another-thread": 1, "two-byte-payload-all-single-bit-damage": 4096, "re-broadcast-frame-damaged-twice": 1, "damaged-frame-with-sync-like-payload": 1, "long-run-of-damaged-frames": 1, "handler-collector": 1, "handler-returns-true": 1, "damage-in-crc": 1, "damage-in-payload": 1, "damage-in-straddle": 1, "adjacent-damaged": 1, "raise": 1, "log-nohandler": 1},
+        need={"reader-handed-to-another-thread": 1, "two-byte-payload-all-single-bit-damage": 4096, "re-broadcast-frame-damaged-twice": 1, "damaged-frame-with-sync-like-payload": 1, "long-run-of-damaged-frames": 1, "handler-collector": 1, "handler-returns-true": 1, "socket-with-gaps-between-items": 1, "damage-in-crc": 1, "damage-in-payload": 1, "damage-in-straddle": 1, "adjacent-damaged": 1, "raise": 1, "log-nohandler": 1},
         sample=_sample,
     ),
 ]
